@@ -1,5 +1,5 @@
 (* One entry point for the harness: request (list Z) -> reply (list Z). *)
-From JP Require Import Base.Json Extract.Wire Extract.WireAst Model.Slice Spec.Slice Model.Ast Model.Eval Spec.Sem Spec.Compare Model.Tokens Model.Lex Model.PyFloat Model.Parse Model.Api Spec.Rfc9535Grammar Spec.BuiltinGrammar Spec.Types Spec.StringLit Model.Position Spec.Position Model.Serialize Spec.NormPath Model.History Model.Descent Model.NdVisit Model.NdEval Spec.Nondet Spec.NondetQ Spec.IRegexp Model.MapRe Spec.Printable.
+From JP Require Import Base.Json Extract.Wire Extract.WireAst Model.Slice Spec.Slice Model.Ast Model.Eval Spec.Sem Spec.Compare Model.Tokens Model.Lex Model.PyFloat Model.Parse Model.Api Spec.Rfc9535Grammar Spec.BuiltinGrammar Spec.Types Spec.StringLit Model.Position Spec.Position Model.Serialize Spec.NormPath Model.History Model.Descent Model.NdVisit Model.NdEval Model.NdEval2 Spec.Nondet Spec.NondetQ Spec.IRegexp Model.MapRe Spec.Printable.
 
 Definition iota_json (len : Z) : list json := map (fun k => JNum (NInt (Z.of_nat k))) (seq 0 (Z.to_nat len)).
 Definition enc_sel (r : list (Z * json)) : list Z := enc_list (fun p => fst p :: enc_json (snd p)) r.
@@ -218,6 +218,21 @@ Definition op_find_nd (r : list Z) : list Z :=
   match dec_json r4 with Some (v, _) => enc_result (enc_list (fun n => enc_loc (fst n))) (m_find_nd (mk_cfg depth rg t) sup q v)
   | None => bad_request end | None => bad_request end | None => bad_request end | None => bad_request end | None => bad_request end
   | None => bad_request end.
+(* [24; depth; registry; rx table; supply of the query's own episodes; supply of the episodes inside filter expressions; query; value]
+   -> find() in nondeterministic mode with the queries nested in filters shuffled too (Model/NdEval2.v): the nodelist, then how many scripts of
+   either supply were left over *)
+Definition op_find_nd2 (r : list Z) : list Z :=
+  match dec_nat r with Some (depth, r0) =>
+  match dec_registry r0 with Some (rg, r1) =>
+  match dec_list dec_rxrow r1 with Some (t, r2) =>
+  match dec_list (dec_list dec_z) r2 with Some (sup, r3) =>
+  match dec_list (dec_list dec_z) r3 with Some (nsup, r4) =>
+  match dec_query r4 with Some (q, r5) =>
+  match dec_json r5 with Some (v, _) =>
+    enc_result (fun a : list node * st2 => enc_list (fun n => enc_loc (fst n)) (fst a) ++ [Z.of_nat (length (fst (snd a))); Z.of_nat (length (snd (snd a)))])
+               (nd2_segs (mk_cfg depth rg t) v (sup, nsup) q [([], v)])
+  | None => bad_request end | None => bad_request end | None => bad_request end | None => bad_request end | None => bad_request end
+  | None => bad_request end | None => bad_request end.
 (* [120; registry; rx table; query; value] -> every nodelist (as locations) RFC 9535 permits for the query on the value *)
 Definition op_nd_results (r : list Z) : list Z :=
   match dec_registry r with Some (rg, r1) =>
@@ -256,6 +271,7 @@ Definition dispatch (req : list Z) : list Z :=
   | 21 :: r => op_repr r
   | 10 :: r => op_nd_visit r
   | 23 :: r => op_find_nd r
+  | 24 :: r => op_find_nd2 r
   | 120 :: r => op_nd_results r
   | 121 :: r => op_in_bf r
   | 11 :: r => op_graph r
